@@ -79,6 +79,7 @@ type pathState struct {
 	memo     map[int]uint64
 	assumedAscii map[int]bool
 	lockDepth    int
+	trees        []value
 }
 
 type obsRec struct {
